@@ -100,6 +100,54 @@ def locate(src):
 
 
 # ------------------------------------------------------------------------------------------------------------
+# entry state of the scan: where `segment_first`, `segment_last` (= the initial `last`) come from
+
+ENTRY_TEXTS = [
+    # the producers of the indices: (ix + start) % len  —  Model/LoopIter.lean `cycleIx`
+    "pub(super) fn cycle_forward<T>(items: &[T], start: usize) -> impl Iterator<Item = (usize, &T)> { "
+    "let len = items.len(); let start = start + 1; (0..len).map(move |ix| { let real_ix = (ix + start) % len; "
+    "(real_ix, &items[real_ix]) }) }",
+    "pub(super) fn cycle_backward<T>(items: &[T], start: usize) -> impl Iterator<Item = (usize, &T)> { "
+    "let len = items.len(); (0..len).rev().map(move |ix| { let real_ix = (ix + start) % len; "
+    "(real_ix, &items[real_ix]) }) }",
+    "let Some((best_contour_range, best_point_ix)) = best_contour_and_point else { continue; }; "
+    "let best_contour = &outline.points[best_contour_range];",
+    "let mut segment_first = best_point_ix; let mut segment_last = best_point_ix;",
+    # the scan starts at segment_last
+    "let mut first = segment_last; let mut last = first; let mut p_first = None; let mut p_last = None; "
+    "let mut hit = false; loop {",
+]
+
+
+def check_entry(src):
+    """segment_first / segment_last are `best_point_ix` or an index yielded by cycle_backward / cycle_forward over
+    `best_contour` — nothing else writes them before the scan"""
+    flat = " ".join(src.split())
+    for t in ENTRY_TEXTS:
+        if t not in flat:
+            raise Unsupported(f"entry state: blues.rs no longer reads `{t[:100]}…` "
+                              f"(Props/C02Blues.lean blues_long_scan_terminates_from_entry relies on it)")
+    m = re.search(r"\bfn\s+" + FUNC + r"\s*\(", src)
+    fb = src.index("{", m.end())
+    b, _ = locate(src)
+    pre = src[fb:b]
+    for var, it in (("segment_first", "cycle_backward"), ("segment_last", "cycle_forward")):
+        writes = [w.start() for w in re.finditer(r"\b" + var + r"\s*(?:[-+*/|&^]|<<|>>)?=(?!=)", pre)]
+        if len(writes) != 2:
+            raise Unsupported(f"entry state: expected 2 writes of `{var}` before the scan (its `let` and one in the "
+                              f"`{it}` loop), found {len(writes)}")
+        if not re.match(var + r"\s*=\s*ix\s*;", pre[writes[1]:]):
+            raise Unsupported(f"entry state: `{var}` is no longer assigned the yielded index `ix`")
+        hdrs = [h for h in re.finditer(r"for\s*\(\s*ix\s*,\s*\w+\s*\)\s*in\s+" + it +
+                                       r"\s*\(\s*best_contour\s*,\s*best_point_ix\s*\)\s*\{", pre)
+                if h.start() < writes[1]]
+        if not hdrs or match_brace(pre + src[b:], hdrs[-1].end() - 1) < writes[1]:
+            raise Unsupported(f"entry state: `{var} = ix` is not inside `for (ix, _) in {it}(best_contour, best_point_ix)`")
+        if re.search(r"&\s*mut\s+" + var + r"\b", pre):
+            raise Unsupported(f"entry state: `{var}` is borrowed mutably")
+
+
+# ------------------------------------------------------------------------------------------------------------
 # parser: statements are dicts {"k": kind, "line": n, …}
 
 class Parser:
@@ -311,6 +359,14 @@ def only_assigns(stmts):
     return eff if all(x["k"] == "assign" for x in eff) else None
 
 
+def sub_guards(lean):
+    """`usize` subtractions of a translated control expression: the list of `a < b` under which `a - b` underflows"""
+    found = re.findall(r"(\w+|\([^()]*\)) - (\w+|\([^()]*\))", lean)
+    if len(found) != lean.count(" - "):
+        raise Unsupported(f"subtraction in `{lean}` is not of the form a - b")
+    return [f"{a} < {b}" for a, b in found]
+
+
 class Gen:
     def __init__(self):
         self.dropped = []      # (line, text)
@@ -319,6 +375,7 @@ class Gen:
         self.dropped_conds = []
         self.havocs = []       # (id, line, text)
         self.exact_assign_lines = set()
+        self.checked_subs = 0
         self.loop_names = {}   # line of the `loop` keyword -> step function (a loop is emitted once)
         self.inner_names = 0
         self.defs = []         # (name, lean text) in dependency order
@@ -353,6 +410,14 @@ class Gen:
             return f"{v} {st['op']} {rhs}"
         return f"{v} {st['op']} ({rhs})"
 
+    def traps(self, lean, pad):
+        """checked `usize` subtraction: the body traps (Rust: panics) when a control subtraction underflows"""
+        out = []
+        for g in sub_guards(lean):
+            self.checked_subs += 1
+            out.append(f"{pad}if {g} then .trap else")
+        return out
+
     def drop(self, st):
         if st["k"] == "if":
             self.dropped_conds.append((st["id"], st["line"], st["cond"]))
@@ -384,7 +449,8 @@ class Gen:
             return [f"{pad}.cont ⟨last, segFirst, n, tick⟩"]
         if k == "assign":
             v = CTRL[st["var"]]
-            return [f"{pad}let {v} := {self.assign_value(st)}"] + self.seq(rest, ind)
+            val = self.assign_value(st)
+            return self.traps(val, pad) + [f"{pad}let {v} := {val}"] + self.seq(rest, ind)
         if k == "loop":
             if st["line"] not in self.loop_names:
                 self.loop_names[st["line"]] = self.loop(st["body"], nested=True)
@@ -410,9 +476,12 @@ class Gen:
                             self.drop(x)
                     va = self.assign_value(a[0]) if a else v
                     vb = self.assign_value(b[0]) if b else v
-                    return [f"{pad}let {v} := if {c} then {va} else {vb}"] + self.seq(rest, ind)
+                    if not sub_guards(va) and not sub_guards(vb):
+                        return (self.traps(c, pad) + [f"{pad}let {v} := if {c} then {va} else {vb}"] +
+                                self.seq(rest, ind))
+                    # a branch subtracts: keep the branches apart so that each subtraction is checked under its guard
             c = self.cond(st)
-            return ([f"{pad}if {c} then"] + self.seq(st["then"] + rest, ind + 1) +
+            return (self.traps(c, pad) + [f"{pad}if {c} then"] + self.seq(st["then"] + rest, ind + 1) +
                     [f"{pad}else"] + self.seq(st["else"] + rest, ind + 1))
         raise Unsupported(f"line {st['line']}: internal: statement kind {k}")
 
@@ -438,6 +507,7 @@ class Gen:
 
 def generate(src_text, src_label):
     src = strip_comments(src_text)
+    check_entry(src)
     b, e = locate(src)
     line0 = src.count("\n", 0, b) + 1
     p = Parser(src[b:e + 1], line0)
@@ -468,7 +538,8 @@ def generate(src_text, src_label):
     L.append("   statements without control effect, dropped:")
     for ln, text in sorted(set(g.dropped)):
         L.append(f"     line {ln}: `{text}`")
-    L.append("   Not modelled: usize overflow / underflow panics of the control arithmetic (Lean `Nat` subtraction truncates).")
+    L.append("   Every subtraction of the control arithmetic is CHECKED: `if a < b then .trap else …` precedes each `a - b`")
+    L.append("   (a usize underflow panics in the Rust build that ./check uses); additions cannot overflow (indices < len).")
     L.append("-/")
     L.append("import FontVerif.Model.LoopIter")
     L.append("namespace FontVerif.Gen.BluesScan")
